@@ -6,7 +6,7 @@
    and the nonce material are those used at encryption; a refused decryption yields no view, hence no plaintext. *)
 From Coq Require Import String.
 From Coq Require Import NArith ZArith List Bool.
-From Cose Require Import Lib.Base Lib.Cbor Model.GoVal Model.Wire Model.MsgLogic Model.Nonce Model.Msg Model.MsgProofs Spec.RFC9052.
+From Cose Require Import Lib.Base Lib.Cbor Model.GoVal Model.Wire Model.Key Model.MsgLogic Model.Nonce Model.NonceProofs Model.Msg Model.MsgProofs Spec.RFC9052.
 Import ListNotations.
 
 Theorem C03_enc_structure_injective : forall c1 c2 pb1 pb2 e1 e2,
@@ -78,3 +78,19 @@ Theorem C03_enc_refusal_yields_nothing : forall pany p data ext w ct aad nonce,
   forall v, enc_consume pany p data ext <> Ok v.
 Proof. exact enc_refusal_yields_nothing. Qed.
 Print Assumptions C03_enc_refusal_yields_nothing.
+
+(* the nonce material binds: under one key and nonce length, two messages whose derived nonces agree carry the same
+   caller IV, and Partial IVs of equal length that are the same bytes (a Partial IV with extra leading zero bytes
+   denotes the same RFC 9052 nonce, hence lengths are compared). Together with C03_enc0_binds / C03_enc_binds: a message
+   whose IV or Partial IV was changed derives another nonce and does not open. *)
+Theorem C03_nonce_material_binds : forall u1 u2 key nsize nonce,
+  derive_nonce u1 key nsize = Ok nonce -> derive_nonce u2 key nsize = Ok nonce -> nonce <> [] ->
+  forall iv1 piv1 iv2 piv2, get_bytes u1 5 = Ok iv1 -> get_bytes u1 6 = Ok piv1 -> get_bytes u2 5 = Ok iv2 -> get_bytes u2 6 = Ok piv2 ->
+  (piv1 = [] -> piv2 = [] -> iv1 = iv2) /\ (length piv1 = length piv2 -> piv1 = piv2).
+Proof. exact nonce_material_binds. Qed.
+Print Assumptions C03_nonce_material_binds.
+
+Theorem C03_partial_iv_nonce_injective : forall base p1 p2 n, length p1 = length p2 -> (length p1 <= n)%nat ->
+  rfc_nonce base p1 n = rfc_nonce base p2 n -> p1 = p2.
+Proof. exact rfc_nonce_injective. Qed.
+Print Assumptions C03_partial_iv_nonce_injective.
